@@ -106,6 +106,15 @@ func (e *Exec) dispatch(st *State, instr ssa.Instruction, cc *ssa.CallCommon, fn
 		e.staticCall(st, instr, fnv.Clo.Fn, fnv.Clo, args, resType, k)
 		return true
 	}
+	if nt, ok := cc.Value.Type().(*types.Named); ok && nt.Obj().Name() == "CancelFunc" && nt.Obj().Pkg() != nil && nt.Obj().Pkg().Path() == "context" {
+		// context.CancelFunc: cancels its context (and descendants); idempotent; touches nothing else
+		e.nopanic(st, "nilfunc", instr, tNot(tEq(fnv.T[0], "0")))
+		e.setCtxCancelled(st, fnv.T[0])
+		st.counts["cancel()"]++
+		st.events = append(st.events, "cancel()")
+		k(st, Val{})
+		return true
+	}
 	if fnv.Prov != "" {
 		if fc := e.cs.Funcs["ff:"+fnv.Prov]; fc != nil {
 			e.nopanic(st, "nilfunc", instr, tNot(tEq(fnv.T[0], "0")))
@@ -318,6 +327,14 @@ func (e *Exec) contractCall(st *State, instr ssa.Instruction, fc *FuncContract, 
 	// 4. results and postconditions
 	res := e.freshVal("res:"+shortName(name), resType)
 	e.bindResults(scope, res, resType, fn)
+	for _, l := range fc.Lets {
+		ctx := &evalCtx{st: st, scope: scope, oldHeap: pre}
+		if v, err := e.evalTop(ctx, l.E, nil); err == nil {
+			scope[l.Name] = v
+		} else {
+			e.contractError(fc, &Clause{Text: "let " + l.Name, Line: fc.Line}, err)
+		}
+	}
 	for _, c := range fc.Ensures {
 		if freshTarget(c.Expr) != "" {
 			if rv, ok := scope[freshTarget(c.Expr)]; ok && len(rv.T) >= 1 {
@@ -459,6 +476,7 @@ func (e *Exec) havocAbstract(st *State, kind string, ov Val) {
 	ref := ov.T[0]
 	hv := func(key, sort, elemSort string) {
 		a := e.curArr(st, key, sort)
+		st.wrote(key, ref)
 		e.setArr(st, key, sort, app("store", a, ref, e.fresh("hv:"+key, elemSort)))
 		st.impure[key] = true
 	}
@@ -482,6 +500,7 @@ func (e *Exec) havocAbstract(st *State, kind string, ov Val) {
 	case "chan":
 		// closed-ness is monotone: a closed channel stays closed
 		a := e.curArr(st, "chan#closed", arr(SInt, SBool))
+		st.wrote("chan#closed", ref)
 		nv := e.fresh("hv:closed", SBool)
 		st.assume(tImp(app("select", a, ref), nv))
 		e.setArr(st, "chan#closed", arr(SInt, SBool), app("store", a, ref, nv))
@@ -579,6 +598,7 @@ func (e *Exec) builtin(st *State, instr ssa.Instruction, b *ssa.Builtin, cc *ssa
 		s := arr(SInt, arr(e.mapKeySort(mt), SBool))
 		a := e.curArr(st, s2key, s)
 		kk := e.mapKeyTerm(mt, args[1])
+		st.wrote(s2key, m)
 		e.setArr(st, s2key, s, tIte(tEq(m, "0"), a, app("store", a, m, app("store", app("select", a, m), kk, "false"))))
 		st.counts["mapgen"]++
 		return Val{}
